@@ -3,7 +3,7 @@ from engine import templates as T
 from engine.graphs import GRAPHS, HEAVY
 
 ALL = [GRAPHS[g] for g in sorted(GRAPHS)]
-_HIST = [g for g in ALL if (g.tags & {"ds", "cached"}) and g.gid not in HEAVY]
+_HIST = [g for g in ALL if g.gid not in HEAVY and (g.spec[0] == "cached" or (g.spec[0] == "ds" and g.spec[3].get("cache", "mem") != "no"))]
 T.register("C02", __name__, T.h_hist, {"mode": "c02"}, _HIST, lemma="M2", name_prefix="memo", two=True, timeout=300, stubs=("S1",),
            cubes=lambda g: {"pert": [[j] for j in range(len(g.universe))]}, extra_params=[("extra", "int")], extra_example={"extra": 0},
            what="on one long-lived graph: a cached body runs at most once within an evaluation (diamonds); an exact repeat and a "
